@@ -242,6 +242,13 @@ func discharge(u *Unit, o *Oblig, script string, sliced string, cfg *SolverCfg) 
 	if res == "error" {
 		o.Output = truncate(out, 2000)
 	}
+	if o.Short {
+		o.Result, o.Solver = "unknown", "z3-new/short"
+		if res == "sat" {
+			o.Result = "sat"
+		}
+		return
+	}
 	// stage 2: race all solvers with the full timeout
 	type ans struct {
 		res, out, solver string
@@ -275,8 +282,8 @@ func discharge(u *Unit, o *Oblig, script string, sliced string, cfg *SolverCfg) 
 	if final.res == "unknown" {
 		// last chance, sequentially and with twice the budget (a race of four solvers on a busy
 		// machine can starve all of them)
-		for _, sd := range solvers[:2] {
-			r, ot, _ := runSolver(ctx, sd, script, 2*cfg.FullMs, cfg, false)
+		for _, sd := range []solverDef{solvers[2], solvers[0]} {
+			r, ot, _ := runSolver(ctx, sd, script, cfg.FullMs, cfg, false)
 			if r == "unsat" || r == "sat" {
 				final = ans{r, ot, sd.name + "/retry"}
 				break
